@@ -43,6 +43,19 @@ type run struct {
 	g        *gen.G
 }
 
+// inflight records the operation about to run: a panic inside one of the library's own goroutines
+// kills this process, the runner then reports that operation
+var inflightPath string
+
+func inflight(op string) {
+	if inflightPath != "" {
+		if len(op) > 4000 {
+			op = op[:4000]
+		}
+		os.WriteFile(inflightPath, []byte(op), 0o644)
+	}
+}
+
 func (r *run) emit(op, out string) {
 	fmt.Fprintln(r.ops, op)
 	fmt.Fprintln(r.impl, out)
@@ -120,6 +133,13 @@ func (r *run) tcpOp(chunks [][]byte) {
 	srv.(*net.TCPConn).SetNoDelay(true)
 	var hexes []string
 	all := append(append([][]byte(nil), chunks...), sentinel)
+	{
+		var hx []string
+		for _, c := range all {
+			hx = append(hx, ktext.Hex(c))
+		}
+		inflight("tcp " + strings.Join(hx, "|"))
+	}
 	go func() {
 		for i, c := range all {
 			if len(c) > 0 {
@@ -203,6 +223,16 @@ func (r *run) frames(n int, malformed bool) (stream []byte, list [][]byte) {
 			f = r.g.RoutingBusyFrame()
 		case 2:
 			f = r.g.DescrResFrameWithUnknown()
+		case 3:
+			// a frame larger than any receive buffer a datagram socket would use: TCP frames are
+			// limited by the 16-bit total length only (an unknown service carries the bytes)
+			if r.g.R.Intn(3) == 0 {
+				total := r.g.Pick(1024, 1025, 1030, 4096, 20000, 65535)
+				f = append([]byte{6, 16, 0xf0, 0x01, byte(total >> 8), byte(total)}, r.g.Bytes(total-6)...)
+				r.classes["tcp-frame-over-1024-bytes"]++
+			} else {
+				f = knxnet.AllocAndPack(r.g.Service(-1))
+			}
 		default:
 			f = knxnet.AllocAndPack(r.g.Service(-1))
 		}
@@ -278,6 +308,13 @@ func (r *run) udpOp(dgrams [][]byte) {
 	var hexes []string
 	var out []string
 	tail := "end"
+	{
+		var hx []string
+		for _, d := range dgrams {
+			hx = append(hx, ktext.Hex(d))
+		}
+		inflight("udp " + strings.Join(hx, "|"))
+	}
 	for _, d := range dgrams {
 		hexes = append(hexes, ktext.Hex(d))
 		srv.WriteToUDP(d, dst)
@@ -374,9 +411,75 @@ func (r *run) c16send(budget int) {
 			r.violation("datagram-length", op, fmt.Sprintf("datagram of %d bytes, header says %d", n, int(buf[4])<<8|int(buf[5])))
 		}
 	}
+	// UDP, 6 concurrent senders: every datagram that arrives is exactly one of the frames handed to
+	// Send (datagrams the kernel drops are not counted against the library)
+	{
+		want := map[string]int{}
+		var wmu sync.Mutex
+		var wg sync.WaitGroup
+		seeds := make([]int64, 6)
+		for i := range seeds {
+			seeds[i] = r.g.R.Int63()
+		}
+		for _, sd := range seeds {
+			wg.Add(1)
+			go func(seed int64) {
+				defer wg.Done()
+				g := gen.New(seed)
+				for i := 0; i < 150; i++ {
+					v := g.Service(-1)
+					if v.Size() > 1000 {
+						continue
+					}
+					b := knxnet.AllocAndPack(v)
+					wmu.Lock()
+					want[string(b)]++
+					wmu.Unlock()
+					sock.Send(v)
+					if i%16 == 15 {
+						time.Sleep(200 * time.Microsecond) // let the reader keep up
+					}
+				}
+			}(sd)
+		}
+		got, unknown := 0, 0
+		done := make(chan struct{})
+		go func() { wg.Wait(); time.Sleep(50 * time.Millisecond); close(done) }()
+	readLoop:
+		for {
+			srv.SetReadDeadline(time.Now().Add(100 * time.Millisecond))
+			n, _, err := srv.ReadFromUDP(buf)
+			if err != nil {
+				select {
+				case <-done:
+					break readLoop
+				default:
+					continue
+				}
+			}
+			got++
+			wmu.Lock()
+			known := want[string(buf[:n])] > 0
+			wmu.Unlock()
+			if !known {
+				// the sender may not have registered it yet: look again when all are done
+				time.Sleep(time.Millisecond)
+				wmu.Lock()
+				known = want[string(buf[:n])] > 0
+				wmu.Unlock()
+			}
+			if !known {
+				unknown++
+				if unknown == 1 {
+					r.violation("udp-datagram-is-no-frame-that-was-sent", "6 concurrent senders on one UDP socket", ktext.Hex(buf[:n]))
+				}
+			}
+		}
+		r.classes["udp-concurrent-datagrams"] += got
+	}
 	sock.Close()
 	// TCP: 1..8 concurrent senders, the peer re-parses the byte stream
-	for round := 0; round < 4; round++ {
+	for round := 0; round < 10; round++ {
 		ln, _ := net.Listen("tcp4", "127.0.0.1:0")
 		acc := make(chan net.Conn, 1)
 		go func() {
@@ -391,7 +494,10 @@ func (r *run) c16send(budget int) {
 		}
 		peer := <-acc
 		senders := 1 + r.g.R.Intn(8)
-		per := 40
+		if round >= 4 {
+			senders = 4 + r.g.R.Intn(5) // contention is where a shared buffer or an interleaved write shows
+		}
+		per := 150
 		want := map[string]int{}
 		var wmu sync.Mutex
 		var wg sync.WaitGroup
@@ -628,6 +734,8 @@ func main() {
 		os.Exit(2)
 	}
 	os.MkdirAll(*dir, 0o755)
+	inflightPath = filepath.Join(*dir, "inflight.txt")
+	os.Remove(inflightPath)
 	of, _ := os.Create(filepath.Join(*dir, "ops.txt"))
 	inf, _ := os.Create(filepath.Join(*dir, "impl.txt"))
 	r := &run{prop: *prop, ops: bufio.NewWriterSize(of, 1<<20), impl: bufio.NewWriterSize(inf, 1<<20),
@@ -663,4 +771,5 @@ func main() {
 	enc.SetIndent("", " ")
 	enc.Encode(stats)
 	sf.Close()
+	os.Remove(inflightPath)
 }
